@@ -89,6 +89,21 @@ func (C17) Gen(t *tape.Tape, tier string) any {
 		gen.GenBloom(t, gen.ShapeByName(sc.Plan.Shape), &sc.Plan.W)
 	}
 	sc.Pools = GenPoolPolicy(t)
+	if sc.Subject == "writer" && t.Chance(1, 8) {
+		// a page per Write call: the number of pages of every column chunk is
+		// chosen (the vector kernels over page bounds have block sizes of 7, 8, 15
+		// and 16 values), and pages of one or two values are often all-NaN
+		np := []int{56, 112, 240, 57, 16, 15, 8, 7, 64}[t.Draw(9)]
+		per := 1 + t.Draw(2)
+		sc.Plan.NRows = np * per
+		sc.Plan.Ops = nil
+		for i := 0; i < np; i++ {
+			sc.Plan.Ops = append(sc.Plan.Ops, WOp{Op: "write", N: per})
+		}
+		sc.Plan.W.PageBufferSize = 1
+		sc.Plan.W.MaxRowsPerGroup = 0
+		sc.Plan.W.NoStats = false
+	}
 	switch sc.Subject {
 	case "buffer":
 		sc.BufferKind = gen.BufferKinds[t.Draw(len(gen.BufferKinds))]
